@@ -1,4 +1,5 @@
 import AdaVerif.Lemmas.SearchParamsSpec
+import AdaVerif.Lemmas.Utf16
 /-
 C12 — URLSearchParams behaves as the Standard's ordered list of name-value pairs.
 
@@ -70,6 +71,18 @@ theorem sort_stable (l c : USP) (hc : c.Pairwise (fun x y => keyLe x y = true)) 
 example : USP.keyLess ([0xF0, 0x9F, 0x98, 0x80], []) ([0xEE, 0x80, 0x80], []) = true := by decide +kernel
 example : USP.keyLess (ofStr "z", []) ([0xC3, 0xA9], []) = true := by decide +kernel
 example : units ([0x61, 0xF0, 0x9F, 0x98, 0x80], 0) = [0x61, 0xD83D, 0xDE00] := by decide +kernel
+
+/-- the hand-written decoder inside the comparator is exactly UTF-8 → UTF-16: on the UTF-8 encoding of
+    any sequence of Unicode scalar values it emits the UTF-16 encoding of that sequence -/
+theorem decoder_is_utf16 (cps : List Nat) (h : ∀ cp ∈ cps, isScalar cp) : units (utf8 cps, 0) = utf16 cps :=
+  units_utf8 cps h
+
+/-- hence `sort()` orders well-formed keys by UTF-16 code units, the order the URL Standard prescribes -/
+theorem comparator_is_utf16_order (a b : List Nat) (va vb : Bytes) (ha : ∀ cp ∈ a, isScalar cp) (hb : ∀ cp ∈ b, isScalar cp) :
+    USP.keyLess (utf8 a, va) (utf8 b, vb) = lexLt (utf16 a) (utf16 b) := keyLess_utf16 a b va vb ha hb
+
+example : utf8 [0x61, 0xE9, 0x20AC, 0x1F600] = [0x61, 0xC3, 0xA9, 0xE2, 0x82, 0xAC, 0xF0, 0x9F, 0x98, 0x80] := by decide +kernel
+example : utf16 [0x61, 0xE9, 0x20AC, 0x1F600] = [0x61, 0xE9, 0x20AC, 0xD83D, 0xDE00] := by decide +kernel
 
 /-! ### non-vacuity -/
 example : USP.parse (ofStr "?a=1&&b=%zz&a=+x%2B&c") =
